@@ -24,11 +24,19 @@ POOLS = {
     'xs:QName': [('p:a', 1), ('q:a', 1), ('p:b', 2), ('r:a', 3)],    # p and q are bound to the same namespace
 }
 TYPES = list(POOLS)
+# field "." on elements declared xs:anySimpleType whose governing type comes from xsi:type: (lexical, value id, xsi:type).
+# Values of different primitive types are never equal; xs:integer is derived from xs:decimal, so 1 and 1.0 are one value.
+DOT_POOL = [('1', 101, 'xs:integer'), ('01', 101, 'xs:integer'), ('+1', 101, 'xs:integer'), ('2', 102, 'xs:integer'),
+            ('1.0', 101, 'xs:decimal'), ('2.50', 125, 'xs:decimal'), ('2.5', 125, 'xs:decimal'), ('2', 102, 'xs:decimal'),
+            ('true', 201, 'xs:boolean'), ('1', 201, 'xs:boolean'), ('false', 200, 'xs:boolean'), ('0', 200, 'xs:boolean'),
+            ('1', 301, 'xs:string'), ('01', 302, 'xs:string'), ('true', 303, 'xs:string'), ('2.5', 304, 'xs:string')]
 # with a target namespace the documents declare it as default namespace: unprefixed QNames are in urn:n1 like p: and q:
 QNAME_TNS = POOLS['xs:QName'] + [('a', 1), ('b', 2)]
 
 
 def pool(tmpl, i):
+    if tmpl.get('dot'):
+        return DOT_POOL
     ty = tmpl['types'][i]
     return QNAME_TNS if ty == 'xs:QName' and tmpl.get('tns') else POOLS[ty]
 
@@ -37,6 +45,17 @@ def schema_text(tmpl):
     nf, types, onattr = tmpl['nf'], tmpl['types'], tmpl['onattr']
     tns = tmpl.get('tns')
     px = 't:' if tns else ''
+    if tmpl.get('dot'):
+        return ('<xs:schema xmlns:xs="http://www.w3.org/2001/XMLSchema"><xs:element name="root"><xs:complexType><xs:sequence>'
+                '<xs:element name="grp" minOccurs="0" maxOccurs="unbounded"><xs:complexType><xs:sequence>'
+                '<xs:element name="k" type="xs:anySimpleType" minOccurs="0" maxOccurs="unbounded"/>'
+                '<xs:element name="u" type="xs:anySimpleType" minOccurs="0" maxOccurs="unbounded"/>'
+                '<xs:element name="f" type="xs:anySimpleType" minOccurs="0" maxOccurs="unbounded"/>'
+                '</xs:sequence></xs:complexType>'
+                '<xs:key name="K"><xs:selector xpath="k"/><xs:field xpath="."/></xs:key>'
+                '<xs:unique name="U"><xs:selector xpath="u"/><xs:field xpath="."/></xs:unique>'
+                '<xs:keyref name="F" refer="K"><xs:selector xpath="f"/><xs:field xpath="."/></xs:keyref>'
+                '</xs:element></xs:sequence></xs:complexType></xs:element></xs:schema>')
     fields_decl_attr = ''.join('<xs:attribute name="a%d" type="%s"/>' % (i, types[i]) for i in range(nf) if onattr[i])
     fields_decl_el = ''.join('<xs:element name="c%d" type="%s" minOccurs="0"/>' % (i, types[i])
                              for i in range(nf) if not onattr[i])
@@ -66,6 +85,9 @@ def schema_text(tmpl):
 
 
 def render_row(tag, row, tmpl):
+    if tmpl.get('dot'):
+        lex, _v, ty = DOT_POOL[row['cells'][0]]
+        return '<%s xsi:type="%s">%s</%s>' % (tag, ty, lex, tag)
     attrs, kids = '', ''
     for i, cell in enumerate(row['cells']):
         if cell is None:
@@ -88,7 +110,8 @@ def render_row(tag, row, tmpl):
 
 def render_doc(case):
     t = case['tmpl']
-    parts = ['<root %sxmlns:p="urn:n1" xmlns:q="urn:n1" xmlns:r="urn:n2">' % ('xmlns="urn:n1" ' if t.get('tns') else '')]
+    parts = ['<root %sxmlns:p="urn:n1" xmlns:q="urn:n1" xmlns:r="urn:n2" '
+             'xmlns:xsi="http://www.w3.org/2001/XMLSchema-instance" xmlns:xs="http://www.w3.org/2001/XMLSchema">' % ('xmlns="urn:n1" ' if t.get('tns') else '')]
     for g in case['groups']:
         parts.append('<grp>')
         for tag in ('k', 'u', 'f'):
@@ -237,7 +260,8 @@ def evaluate(ctx, cases):
         nrows = sum(len(g[t]) for g in c['groups'] for t in 'kuf')
         ctx.count(('t', xml, json.dumps(c['tmpl'], sort_keys=True), c['version']), nontrivial=nrows >= 3)
         ctx.dist('spec_verdict', 'invalid:' + ','.join(sorted(set(reasons))) if reasons else 'valid')
-        ctx.dist('fields', '%d %s' % (c['tmpl']['nf'], '/'.join(t.split(':')[1] for t in c['tmpl']['types'])))
+        ctx.dist('fields', 'field "." typed by xsi:type' if c['tmpl'].get('dot') else
+                 '%d %s' % (c['tmpl']['nf'], '/'.join(t.split(':')[1] for t in c['tmpl']['types'])))
         ndup, nmiss, ndang, idsok, nanc, nlast = m
         cnt = o['counts']
         problems = []
@@ -347,6 +371,17 @@ def gen(ctx):
                 fa.append(r)
             case['fa'] = fa
         cases.append(case)
+    # field "." on xs:anySimpleType elements typed by xsi:type
+    td = {'nf': 1, 'types': ['xsi:type'], 'onattr': [False], 'dot': True}
+    for i in range(150 if ctx.quick() else 3000):
+        groups = []
+        for _ in range(rng.choice([1, 1, 2])):
+            g = {tag: [{'cells': [rng.randrange(len(DOT_POOL))]} for _ in range(rng.choice([0, 1, 2, 3]))] for tag in ('k', 'u', 'f')}
+            for r in g['f']:
+                if g['k'] and rng.random() < 0.6:
+                    r['cells'] = [_variant(rng, td, 0, rng.choice(g['k'])['cells'][0])]
+            groups.append(g)
+        cases.append({'tmpl': td, 'version': '1.1' if i % 2 else '1.0', 'groups': groups})
     return cases
 
 
@@ -354,7 +389,7 @@ def _variant(rng, tmpl, j, idx):
     """another lexical form of the same value"""
     pl = pool(tmpl, j)
     val = pl[idx][1]
-    same = [i for i, (_l, v) in enumerate(pl) if v == val]
+    same = [i for i, e in enumerate(pl) if e[1] == val]
     return rng.choice(same)
 
 
